@@ -123,6 +123,9 @@ type Sys struct {
 	Enc                       iscp.EncodingName
 	PingInterval, PingTimeout time.Duration
 	ScribbleReads             bool // the application edits every chunk ReadDataPoints gave it (after copying it)
+	ReenterOnReconnected      bool // the reconnected handler calls SendMetadata
+	CloseOnDisconnected       bool // the disconnected handler calls Conn.Close (first disconnect only)
+	HandlerCalls              []*handlerCall
 	TokenCalls                int
 	TokenFail                 int // next n Token() calls fail
 	Tokens                    []string
@@ -154,16 +157,72 @@ func (y *Sys) Token() (iscp.Token, error) {
 	return iscp.Token(tok), nil
 }
 
+// handlerCall is an API call the application makes from inside one of its connection event handlers.
+type handlerCall struct {
+	What       string
+	Start, End time.Duration
+	Timeout    time.Duration
+	Returned   bool
+	Err        error
+}
+
 func (y *Sys) OnDisconnected(*iscp.DisconnectedEvent) {
 	y.s.mu.Lock()
 	y.Disconnected = append(y.Disconnected, y.s.Now())
+	closeNow := y.CloseOnDisconnected && y.Conn != nil && len(y.Disconnected) == 1
 	y.s.mu.Unlock()
+	if closeNow {
+		// the application gives up on the first disconnect: it closes the connection from the handler
+		y.callFromHandler("Conn.Close:from-disconnected-handler", 5*time.Second, func(ctx context.Context) error { return y.Conn.Close(ctx) })
+	}
 }
 
 func (y *Sys) OnReconnected(*iscp.ReconnectedEvent) {
 	y.s.mu.Lock()
 	y.Reconnected = append(y.Reconnected, y.s.Now())
+	reenter := y.ReenterOnReconnected && y.Conn != nil
 	y.s.mu.Unlock()
+	if reenter {
+		// the application re-announces its base time as soon as the connection is back
+		y.callFromHandler("SendMetadata:from-reconnected-handler", 2*time.Second, func(ctx context.Context) error {
+			return y.Conn.SendMetadata(ctx, &message.BaseTime{SessionID: "sess", Name: "from-reconnected-handler", Priority: 1, ElapsedTime: time.Second, BaseTime: time.Unix(1_700_000_000, 0).UTC()})
+		})
+	}
+}
+
+func (y *Sys) callFromHandler(what string, timeout time.Duration, f func(ctx context.Context) error) {
+	hc := &handlerCall{What: what, Timeout: timeout}
+	y.s.mu.Lock()
+	hc.Start = y.s.Now()
+	y.HandlerCalls = append(y.HandlerCalls, hc)
+	y.s.stats["env.api-call-from-event-handler"]++
+	y.s.mu.Unlock()
+	ctx, cancel := context.WithTimeout(context.Background(), timeout)
+	err := f(ctx)
+	cancel()
+	y.s.mu.Lock()
+	hc.End, hc.Returned, hc.Err = y.s.Now(), true, err
+	y.s.mu.Unlock()
+}
+
+// judgeHandlerCalls: a call made from an event handler is bounded by its context like any other.
+func (y *Sys) judgeHandlerCalls(rule string) {
+	s := y.s
+	s.mu.Lock()
+	calls := append([]*handlerCall(nil), y.HandlerCalls...)
+	now := s.Now()
+	s.mu.Unlock()
+	for _, hc := range calls {
+		s.mu.Lock()
+		ret, start, end := hc.Returned, hc.Start, hc.End
+		s.mu.Unlock()
+		switch {
+		case !ret && now-start > hc.Timeout+2*time.Second:
+			s.Violate(rule, "victim:"+hc.What, "%s (context with a %v deadline), called by the application from its event handler at %v, has not returned at %v", hc.What, hc.Timeout, start, now)
+		case ret && end-start > hc.Timeout+2*time.Second:
+			s.Violate(rule, "victim:"+hc.What, "%s (context with a %v deadline), called from an event handler, returned only after %v", hc.What, hc.Timeout, end-start)
+		}
+	}
 }
 
 // --- operations ---
